@@ -44,6 +44,16 @@ CHECKS['C09'] = dict(
          'the written bytes); data-file changes limited to append/truncate (the property\'s history alphabet); entries of type INVALID(0) '
          'and P1 times >= 2^32-1 s excluded by hypothesis.')
 
+CHECKS['C20'] = dict(
+    text='Lean 4 theorems over a bounds-checked NUL-terminated-buffer model of FromString/strtol, ToString and the six operators: '
+         'round trip for every version, no read beyond the terminator for every string, result = grammar <0-255>.<0-65535> (else '
+         'invalid), operators = lexicographic total order; model tied to the compiled code under ASan+UBSan on exhaustive short '
+         'strings, boundary/random strings, all versions (thorough) and operator grids.',
+    ref='4 C20', technique='Lean 4 proof on an executable model + model/compiled-code correspondence under AddressSanitizer',
+    note='Full after fix a4e1937. Trusted: Lean kernel; propext/Classical.choice/Quot.sound; strtol modelled by contract (checked '
+         'against libc each run); ASan validates the memory model on generated inputs; leading zeros admitted; 255.65535 is the '
+         'invalid version.')
+
 NOT_APPLICABLE = []
 
 
